@@ -241,8 +241,41 @@ def literal_cases():
     return out
 
 
+BUILTIN_OBJECTS = ["Object", "Array", "String", "Number", "Boolean", "Function", "RegExp", "Math", "JSON", "Uint8Array", "Int32Array",
+                   "Float64Array", "ArrayBuffer", "Object.prototype", "Error.prototype", "TypeError.prototype", "(function () { }).prototype",
+                   "[1, 2]", "'ab'", "/a/g", "new Error('m')", "new Uint8Array(2)", "(function () { return arguments })(1, 2)",
+                   "new String('ab')", "Object.create(null)", "5", "true"]
+# (the Error constructors carry V8's own `stackTraceLimit`; functions and Number objects cannot hold properties in this engine - documented)
+
+
+def _desc(name, full=False):
+    return ("var d = Object.getOwnPropertyDescriptor(B, '%s');" % name,
+            "d ? [d.enumerable, %stypeof d.value].join() : 'none'" % ("d.writable, d.configurable, " if full else ""))
+
+
+BUILTIN_OBS = [
+    ("", "Object.keys(B).join()"), ("var ks = []; for (var k in B) { ks.push(k) }", "ks.join()"), ("", "Object.values(B).length"),
+    ("", "Object.entries(B).length"), ("", "Object.keys(Object.assign({}, B)).join()"), ("", "JSON.stringify(B)"),
+    ("var t = {t: 1}; Object.assign(t, B);", "Object.keys(t).sort().join()"), ("", "JSON.stringify([B])"),
+]
+
+
+def builtin_enum_cases():
+    out = []
+    for b in BUILTIN_OBJECTS:
+        for setup, expr in BUILTIN_OBS:
+            src = "var B = %s; var r; try { r = (function () { %s return %s })() } catch (e) { r = 'throw:' + e.name } r" % (b, setup, expr)
+            out.append(("E|" + src, {"src": src}))
+    return out
+
+
 def core_spaces():
     return [
+        Space("c08_builtin_enum", RUN, builtin_enum_cases, oracle="table", batch=100, bound="%d x %d" % (len(BUILTIN_OBJECTS), len(BUILTIN_OBS)),
+              rule="%d built-in constructors, namespaces, prototypes and instances of every kind x %d observations (keys, for-in, values, "
+                   "entries, assign into a fresh and into an existing object, stringify alone and as an element): which members are "
+                   "enumerable" % (
+                       len(BUILTIN_OBJECTS), len(BUILTIN_OBS))),
         hist_space("c08_hist_d2", lambda: _hist_cases(G.upto(G.FULL, 2), True), RULE_D2, "depth <= 2, |A| = %d" % len(G.FULL)),
         hist_space("c08_hist_core_d3", lambda: _hist_cases(G.product(G.CORE, 3), False),
                    "all length-3 histories over the %d-statement core alphabet; the state after the last statement is "
